@@ -4,35 +4,7 @@
 use std::io::{BufRead, Write};
 use std::panic::{catch_unwind, AssertUnwindSafe};
 
-mod util;
-mod ops_pattern;
-mod ops_summary;
-mod ops_distinfo;
-mod ops_plist;
-mod ops_index;
-mod ops_pkgdb;
-
-fn run(op: &str, args: &[&str]) -> String {
-    if let Some(r) = ops_pattern::run(op, args) {
-        return r;
-    }
-    if let Some(r) = ops_pkgdb::run(op, args) {
-        return r;
-    }
-    if let Some(r) = ops_index::run(op, args) {
-        return r;
-    }
-    if let Some(r) = ops_plist::run(op, args) {
-        return r;
-    }
-    if let Some(r) = ops_distinfo::run(op, args) {
-        return r;
-    }
-    if let Some(r) = ops_summary::run(op, args) {
-        return r;
-    }
-    "UNKNOWN-OP".to_string()
-}
+use pkgsrc_harness::run;
 
 fn main() {
     std::panic::set_hook(Box::new(|_| {}));
